@@ -107,6 +107,39 @@ def rootsClosed (S : List (List Exc)) : Bool :=
 def combineThrows (idx : List Nat) (t : Nat) : Bool :=
   decide (idx.length < t) || (idx.take t).contains 0 || !decide (idx.take t).Nodup
 
+/-! ### serial accept loops: who is served while one client stays silent
+
+Both accept threads (`SessionManager::accept_loop`, `ControlServer::Impl::accept_loop`) take one
+connection at a time and read from it with blocking `recv` before they accept the next one.
+A connection is abstracted to what it costs the accept thread: it completes its request after
+some time, or it stays silent.  `readTimeout` is the bound the code puts on a blocking read of an
+accepted connection (`none`: no bound). -/
+
+inductive Conn where
+  /-- sends what is expected of it; the accept thread is busy for `work` time units -/
+  | completes (work : Nat)
+  /-- connects and then sends nothing (or not enough) -/
+  | silent
+deriving DecidableEq, Repr
+
+/-- time the accept thread spends on one connection; `none` = it never comes back -/
+def holdTime (readTimeout : Option Nat) : Conn → Option Nat
+  | .completes w => some w
+  | .silent => readTimeout
+
+/-- when the accept thread gets to the `k`-th queued connection (`none` = never) -/
+def pickedUpAt (readTimeout : Option Nat) : List Conn → Nat → Option Nat
+  | _, 0 => some 0
+  | [], _ + 1 => some 0
+  | c :: rest, k + 1 =>
+    match holdTime readTimeout c, pickedUpAt readTimeout rest k with
+    | some h, some t => some (h + t)
+    | _, _ => none
+
+/-- what the real-thread probe `rt stall` must observe for a second client queued behind a silent one -/
+def secondClientServed (readTimeoutSet : Bool) : Bool :=
+  (pickedUpAt (if readTimeoutSet then some 2 else none) [.silent, .completes 0] 1).isSome
+
 /-! ### helpers for the driver -/
 
 def excName : Exc → String
